@@ -41,7 +41,7 @@ lbytes.FAST_CLASS = True  # `c in b"<class>"` on a symbolic byte: one fork inste
 lbytes.NORMALISE = True   # all-concrete pieces of a partly symbolic buffer become real strs again
 
 LB = lift.lift("twisted.protocols.basic", names=["LineReceiver", "_PauseableMixin"])
-LA = lift.lift("twisted.web._abnf")
+LA = lift.lift("twisted.web._abnf", use_re=True)
 LH = lift.lift("twisted.web.http_headers", overrides={"_istoken": LA._istoken}, encode_calls=True)
 
 HTTP_NAMES = ["HTTPChannel", "_ChunkedTransferDecoder", "_IdentityTransferDecoder", "_parseRequestLine",
@@ -236,12 +236,14 @@ def all_latin1(s):
 # C18 proper
 # ------------------------------------------------------------------------------------------------
 
-BOUNDS = {"quick": {"v": 1, "bd": 2, "shapes": 12, "jshapes": 6},
-          "thorough": {"v": 2, "bd": 3, "shapes": 24, "jshapes": 12}}
+BOUNDS = {"quick": {"v": 1, "bd": 2, "shapes": 12, "jshapes": 6, "sl": 1},
+          "thorough": {"v": 2, "bd": 3, "shapes": 24, "jshapes": 12, "sl": 2}}
 B = {}
 BOUNDS_TEXT = ("request streams of 44-136 bytes from 12 (quick) / 24 (thorough) shapes = framing {none, "
                "Content-Length, chunked} x obs-fold x Expect: 100-continue (x Connection: close in thorough), always "
-               "followed by a second pipelined request.  seg_stray: Content-Length / chunked body followed by 0-3 "
+               "followed by a second pipelined request.  seg_sizeline: chunk-size line (size + extension, last byte "
+               "symbolic) of limit-1 .. limit+1 bytes (thorough: +-2) with the decoder's line limit scaled from 1024 "
+               "to 8, every split and byte-wise delivery.  seg_stray: Content-Length / chunked body followed by 0-3 "
                "stray CRLFs and two more requests, symbolic body, every split.  seg_split: symbolic header value of v bytes (1 quick / 2 "
                "thorough), symbolic body of bd bytes, every 2-piece split of every stream.  seg_junk: one symbolic "
                "junk byte replacing one of the 12-19 structural characters of a shape (request-line bytes, "
@@ -252,7 +254,8 @@ OUTSIDE = ["streams outside the shapes (header names come from a concrete menu; 
            "than one junk byte; a junk byte inserted rather than replacing a character)",
            "three or more deliveries other than byte-at-a-time; in the quick tier the junk byte is combined "
            "only with the 4 cuts next to it and with byte-wise delivery, not with every split",
-           "the real limits MAX_LENGTH / totalHeadersSize = 16384 and maxHeaders = 500 (never reached here)",
+           "the real limits MAX_LENGTH / totalHeadersSize = 16384 and maxHeaders = 500 (never reached here); the "
+           "chunk-size-line limit 1024 is exercised scaled down to 8 (seg_sizeline)",
            "timeouts (timeOut=None: no reactor) and HTTP/2"]
 ASSUMPTIONS = ["LBytes/LBuf reproduce bytes/bytearray semantics (vlib.lbytes.selftest on every run); the lifted "
                "channel agrees with the real one on the concrete vectors below",
@@ -359,6 +362,49 @@ def seg_stray(fr: int, ncr: int, bd: str, split: int) -> bool:
     return _same(whole, two)
 
 
+SIZE_LIMIT = 8      # maxChunkSizeLineLength (really 1024) while seg_sizeline runs
+
+
+class _scaled_size_limit:
+    """for the duration of one harness run the chunk-size-line limit of the decoder under test is 8
+    instead of 1024 (module global of the lifted namespace / of the real module in replay), so that
+    lines just below, at and above the limit are inside the bound; restored on every exit"""
+
+    def __enter__(self):
+        import twisted.web.http as real
+        self.where = real.__dict__ if L.__real__ else L.__ns__
+        self.old = self.where["maxChunkSizeLineLength"]
+        self.where["maxChunkSizeLineLength"] = SIZE_LIMIT
+
+    def __exit__(self, *exc):
+        self.where["maxChunkSizeLineLength"] = self.old
+        return False
+
+
+def seg_sizeline(n: int, ec: str, split: int) -> bool:
+    """
+    pre: SIZE_LIMIT - B['sl'] <= n <= SIZE_LIMIT + B['sl']
+    pre: len(ec) == 1 and ord(ec) < 256
+    pre: 0 <= split
+    post: _
+    """
+    # a chunk-size line (size + chunk extension) of n bytes, n around the decoder's line-length limit:
+    # the verdict on the line (accepted / 400) and everything after it must not depend on where the
+    # deliveries are cut, in particular between the CR and the LF that end the line
+    fresh_name_cache()
+    n = SIZE_LIMIT - 2 + split_cases(4, n - (SIZE_LIMIT - 2))
+    line = "2;" + "x" * (n - 3) + fix(ec, 1)
+    stream = ("POST /a HTTP/1.1\r\nTransfer-Encoding: chunked\r\n\r\n" + line + "\r\nab\r\n0\r\n\r\n" + _SECOND)
+    k = split_cases(len(stream), split)
+    with _scaled_size_limit():
+        whole = run_channel([stream])
+        two = run_channel([stream[:k], stream[k:]])
+        many = run_channel([stream[i:i + 1] for i in range(len(stream))])
+    api.obs((whole[:3], two[:3], many[:3]))
+    cover()
+    return _same(whole, two) and _same(whole, many)
+
+
 def seg_junk(shape: int, jpos: int, j: str, d: int) -> bool:
     """
     pre: 0 <= shape < B['jshapes'] and 0 <= jpos < 19
@@ -413,6 +459,9 @@ def _jshape_shards(tier):
 
 
 HARNESSES = [
+    H(seg_sizeline, shards=lambda tier: [("n == %d" % v,) for v in range(SIZE_LIMIT - BOUNDS[tier]["sl"],
+                                                                         SIZE_LIMIT + BOUNDS[tier]["sl"] + 1)],
+      timeout={"quick": 120, "thorough": 600}),
     H(seg_stray, shards=[("fr == %d" % f, "ncr == %d" % n) for f in (1, 2) for n in range(4)],
       timeout={"quick": 120, "thorough": 600}),
     H(seg_split, shards=_shape_shards, timeout={"quick": 240, "thorough": 1500}),
@@ -425,6 +474,8 @@ HARNESSES = [
 ]
 
 VECTORS = {
+    "seg_sizeline": [(7, "y", 50), (8, "y", 53), (8, "y", 57), (7, "y", 56), (9, "y", 55), (8, "\r", 54), (7, "\x00", 10), (6, "=", 52),
+                     (10, "y", 56), (8, "\n", 0)],
     "seg_stray": [(1, 0, "ab", 40), (1, 1, "ab", 41), (1, 2, "ab", 41), (1, 2, "ab", 42), (1, 3, "\r\n", 43), (2, 1, "ab", 60),
                   (2, 2, "ab", 59), (2, 2, "xy", 0), (2, 3, "ab", 61)],
     "seg_split": [(0, "v", "ab", 5), (1, "\r", "\r\n", 40), (2, "\x00", "xy", 70), (4, " ", "a\xff", 33),
